@@ -138,3 +138,32 @@ def load(crates):
     p = Program()
     for c in crates: p.add_crate(c)
     return p
+
+
+def dump_to_cache(crates):
+    """dump every crate once (from the current working tree) and store the texts for the worker processes"""
+    import json, tempfile
+    out = {}
+    d = os.path.join(BUILD, 'run', str(os.getpid())); shutil.rmtree(d, ignore_errors=True); os.makedirs(d, exist_ok=True)
+    for c in crates:
+        text, shims, dt = dump_crate(c)
+        p = os.path.join(d, c + '.mir'); open(p, 'w').write(text)
+        sp = os.path.join(d, c + '.shims.json'); json.dump(shims, open(sp, 'w'))
+        out[c] = {'mir': p, 'shims': sp, 'dump_s': round(dt, 2), 'enums': scan_enums(c)}
+    # old run directories are removed (keep the 4 most recent)
+    runs = sorted((os.path.getmtime(os.path.join(BUILD, 'run', x)), x) for x in os.listdir(os.path.join(BUILD, 'run')))
+    for _, x in runs[:-4]: shutil.rmtree(os.path.join(BUILD, 'run', x), ignore_errors=True)
+    return out
+
+
+def load_cached(blobs, crates):
+    import json
+    p = Program()
+    for c in crates:
+        b = blobs[c]
+        text = open(b['mir']).read(); p.dump_s += b['dump_s']; p.crates.append(c); p.lines += text.count('\n')
+        mir.parse_mir_text(text, c, p.fns)
+        for _, t in json.load(open(b['shims'])).items():
+            for n, f in mir.parse_mir_text(t, c, {}).items(): p.shims[n] = f
+        for k, v in b['enums'].items(): p.enums.setdefault(k, v)
+    return p
